@@ -17,7 +17,7 @@ func init() {
 	registerProp(&Property{
 		ID: "C02", Kind: "necessary structural clauses",
 		Tech:  "dominance/ordering rules on Layout, effect-contract checks (Reverse involution, inverse pairs), field-ownership table, typed-AST output mapping",
-		Rules: []string{"ORD-2", "ORD-3", "EFF-1", "EFF-2", "PAIR-2", "PAIR-3", "OWN-1", "SPLIT-1"},
+		Rules: []string{"ORD-2", "ORD-3", "EFF-1", "EFF-2", "PAIR-2", "PAIR-3", "OWN-1", "SPLIT-1", "POP-1"},
 		Explanation: "Decides the undo structure and the output mapping, not the multiset equality itself: ORD-2 restore and un-reverse happen after the pipeline and before collection; EFF-1 Reverse is an involution on direction/flag/adjacency; EFF-2 fragments and self-loops: every add has its remove; " +
 			"PAIR-2 un-reverse exactly the flagged edges; PAIR-3 ID/direction/size copied from the right fields, helper nodes filtered unless requested, no other node or edge dropped; OWN-1 Edge.Points written only by routers (which never see self-loops), Node.W/H written only by the two option closures, IsVirtual/ID only at construction; " +
 			"ORD-3 fixed size first, per-node override second and only for listed nodes; SPLIT-1 the component traversal records every node and edge it reaches. Not decided: that break/merge are exact inverses on every chain (the count of edges).",
@@ -42,7 +42,7 @@ func init() {
 	registerProp(&Property{
 		ID: "C05", Kind: "necessary structural clauses",
 		Tech:  "symbolic affine execution of the route anchors, SSA value-identity of the arrowhead flag, typed-AST output mapping, forward slice of the component shift",
-		Rules: []string{"AFF-1", "AFF-9", "PAIR-2", "PAIR-3", "PAIR-4", "FLOW-1"},
+		Rules: []string{"AFF-1", "AFF-9", "PAIR-2", "PAIR-3", "PAIR-4", "FLOW-1", "DISP-1"},
 		Explanation: "AFF-1: the first point of every non-flat route is (n.X + W/2, n.Y + H) of ns[0] and the last is (n.X + W/2, n.Y) of ns[len-1] for Straight, Polyline, Ortho and the 2-point spline; PAIR-2: flag = reversed, so after UnreverseEdges the flagged end is ToID; PAIR-3 output mapping; PAIR-4 route ends are real nodes; " +
 			"FLOW-1/AFF-6: points are shifted in x exactly like their nodes (the shift lands in the point stored in the output, not in a copy); AFF-9 end-control clause: every spline piece, MakeSpline's included, starts and ends at exactly the points it was given. Not decided: that ns[0] is the upper node on every input (depends on layering), fitted splines, finiteness.",
 		Assumptions: []string{"layering is feasible (C03, undecided part)"},
@@ -50,7 +50,7 @@ func init() {
 	registerProp(&Property{
 		ID: "C06", Core: []string{"AFF-2", "AFF-3"}, Kind: "necessary structural clauses",
 		Tech:  "symbolic affine execution of the routers (point-sequence shapes, orthogonality as shared coordinate expressions), SSA value-identity for spline joining",
-		Rules: []string{"AFF-2", "AFF-3", "AFF-9", "OWN-1", "PAIR-3", "FLOW-1"},
+		Rules: []string{"AFF-2", "AFF-3", "AFF-9", "OWN-1", "PAIR-3", "FLOW-1", "DISP-1"},
 		Explanation: "PAIR-3 + FLOW-1: the caller receives the router's point list itself - a plain copy (slices.Clone or a package helper that receives e.Points) whose only change is the component shift added to x; nothing is filtered, compacted or re-ordered on the way out (spline routes rely on repeated points at the joints). AFF-2: Straight yields exactly 2 points; Polyline yields [start, one point per inner route node at (n.X + W/2, n.Y + layerH/2), end]; Splines append 4-point pieces; AFF-3: within one orthogonal elbow consecutive points share an identical x or y expression and consecutive elbows share x; " +
 			"AFF-9: spline pieces join (shared split point and tangent, p0/p3 from the path ends, pieces emitted reversed while iterating backward); OWN-1: helper nodes keep zero size, so the bend x is the helper node's x in the output. Not decided: 'never upward' and 'no bend inside a node rectangle' (need C03/C04 numerically).",
 		Assumptions: []string{"flat (same-layer) edges are outside the decided shapes"},
@@ -76,8 +76,8 @@ func init() {
 	registerProp(&Property{
 		ID: "C09", Kind: "necessary clauses (independence sufficient given the C07 argument)",
 		Tech:  "map-range classifier, order-preserving-split recogniser, shared-state inventory, forward slice and recurrence of the component shift",
-		Rules: []string{"LANG-0", "DET-1", "DET-3", "GLOB-1", "FLOW-1", "ORD-2"},
-		Explanation: "Independence follows from: the pipeline is a deterministic function of (g, params) (C07 rules), nothing survives from one component to the next (GLOB-1; params by value; algorithm values are stateless), the component handed to the pipeline has the same node/edge/adjacency order as it has as the sole input (DET-3), " +
+		Rules: []string{"LANG-0", "DET-1", "DET-3", "GLOB-1", "FLOW-1", "ORD-2", "SPLIT-1"},
+		Explanation: "Independence follows from: the pipeline is a deterministic function of (g, params) (C07 rules), nothing survives from one component to the next (GLOB-1; params by value; algorithm values are stateless), the component handed to the pipeline has the same node/edge/adjacency order as it has as the sole input (DET-3) and lacks none of its edges (SPLIT-1: self-loops, chords and parallel copies are recorded like any other edge), " +
 			"and the only cross-component quantity, shift, reaches nothing but output x (FLOW-1) by the recurrence shift' = shift + rightmost + NodeSpacing (AFF-6, part of FLOW-1). ORD-2: every component goes through the same pre-processing, pipeline and post-processing. " +
 			"Not decided: the numeric disjointness needs 'last node of a layer is rightmost' and X >= 0 from each positioner (decided only for VAlign/PackRight by AFF-4).",
 		Assumptions: []string{"positioners place the last node of a layer rightmost and at x >= 0 (decided only for VAlign/PackRight)"},
